@@ -38,6 +38,8 @@ def torch_dtype(sd):
 
 
 class SymTensor(torch.Tensor):
+    __module__ = 'torch'      # libraries that pick a backend from type(x).__module__ (opt_einsum) must see a torch tensor
+
     @staticmethod
     def __new__(cls, sym, tdtype=None):
         if not isinstance(sym, A.SymArray):
@@ -111,7 +113,9 @@ def _plain_tensor(x):
     if isinstance(x, SymTensor):
         return _real_zeros(tuple(x._sym.shape), dtype=torch_dtype(x._sym.dtype))
     if isinstance(x, A.SymArray) or A.is_sym_scalar(x):
-        return A.dummy(x)          # symbolic NumPy operands (e.g. tables built under the np facade): zero-filled stand-ins
+        return A.dummy(x)
+    if isinstance(x, np.ndarray) and x.dtype == object:
+        return A.dummy(A.wrap(x))          # symbolic NumPy operands (e.g. tables built under the np facade): zero-filled stand-ins
     if isinstance(x, (list, tuple)):
         return type(x)(_plain_tensor(e) for e in x)
     if isinstance(x, dict):
@@ -301,7 +305,7 @@ def _sigmoid(a):
     return f(a)
 
 
-@handler('conj', 'conj_physical', 'resolve_conj', 'conjugate')
+@handler('conj', 'conj_physical', 'conjugate')
 def _conj(a):
     return a.conj() if isinstance(a, A.SymArray) else np.conj(a)
 
@@ -402,7 +406,7 @@ def _unsqueeze(a, dim):
     return np.expand_dims(a, dim if dim >= 0 else dim + a.ndim + 1)
 
 
-@handler('contiguous', 'clone', 'detach', 'cpu')
+@handler('contiguous', 'clone', 'detach', 'cpu', 'resolve_conj', 'resolve_neg')
 def _same(a, *args, **kw):
     return a.copy() if isinstance(a, A.SymArray) else a
 
@@ -502,6 +506,32 @@ def _vdot(a, b):
 @handler('dot', 'inner')
 def _dot(a, b):
     return np.dot(a, b)
+
+
+@handler('tensordot')
+def _tensordot(a, b, dims=2, **kw):
+    if isinstance(dims, (tuple, list)):
+        dims = tuple(list(d) if isinstance(d, (tuple, list)) else d for d in dims)
+    return np.tensordot(a, b, axes=dims)
+
+
+@handler('maximum', 'max_elementwise')
+def _maximum(a, b):
+    return np.maximum(a, b)
+
+
+@handler('minimum')
+def _minimum(a, b):
+    return np.minimum(a, b)
+
+
+@handler('linalg_eigvalsh', noshadow=True)
+def _eigvalsh(a, *args, **kw):
+    f = STUBS.get('eigvalsh')
+    if f is None:
+        raise EngineError('torch.linalg.eigvalsh: no stub installed')
+    r = f(a)
+    return SymTensor(A.wrap(A.plain(r) if isinstance(r, A.SymArray) else r, np.float64), torch.float64)
 
 
 @handler('linalg_norm', 'norm', 'linalg_vector_norm', 'linalg_matrix_norm')
